@@ -1386,7 +1386,7 @@ def run(ck, tier, rng):
                              {"entry_point": "public API history (see ops), then Presentation.save", "input": {"deck": out["deck"], "ops": mn},
                               "deck": out["deck"], "ops": mn, "full_history": r["ops"][:step], "hseed": out["hseed"],
                               "impl_outcome": text, "oracle_clause": sig})
-    concrete = len(ck.violations) + len(ck.known_hits)
+    concrete = len(ck.violations)
     if diffs and not concrete:
         ck.violation("correspondence", "model/PkgOps.v and python-pptx disagree on %d histories, first: %s; the oracle found no history on which the property itself fails"
                      % (len(diffs), diffs[0][:900]),
